@@ -5,7 +5,8 @@
    Auth/AuthSpec.v.  MD5, base64, url.ParseQuery and non-ASCII lower-casing are
    universally quantified functions (no law is needed except where stated). *)
 From Lal Require Import Common.LBytes Auth.AuthStr Auth.AuthSimple Auth.AuthRtsp Auth.AuthPaths Auth.AuthBlacklist Auth.AuthGate
-  Auth.AuthSpec Auth.AuthSimpleProofs Auth.AuthRtspProofs Auth.AuthPathsProofs Auth.AuthBlacklistProofs.
+  Auth.AuthServeHls Auth.AuthSpec Auth.AuthSimpleProofs Auth.AuthRtspProofs Auth.AuthPathsProofs Auth.AuthBlacklistProofs
+  Auth.AuthServeHlsProofs.
 Open Scope N_scope.
 
 (* ---- simple auth ---------------------------------------------------------- *)
@@ -171,6 +172,55 @@ Theorem c14_confined_pinned_refuted :
   (exists root path file, root <> [] /\ hls_serve_file_gen false path root = Some file /\ ~ inside root file).
 Proof. split; [exact write_pinned_refuted|exact serve_pinned_refuted]. Qed.
 Print Assumptions c14_confined_pinned_refuted.
+
+(* ---- composition in ServerManager -------------------------------------------- *)
+
+(* serveHls, whole histories: after add_ip_blacklist(ip, dur) at time now, NO request of
+   that address - playlist or fragment, either URL form, any query, simple auth on or
+   off - is answered with HLS content for any history of requests (of any address),
+   black-listings of other addresses and clock advances, until now+dur has passed *)
+Theorem c14_hls_blacklisted_no_content : forall md5raw parse_query lower_uni cfg root t ip dur now ops,
+  Forall (sh_op_ok ip) ops -> (sh_total_sleep ops <= dur)%Z ->
+  Forall (fun kr => fst kr = ip -> no_content (snd kr))
+         (sh_run_tagged md5raw parse_query lower_uni cfg root (bl_add t ip dur now) now ops)
+  /\ map snd (sh_run_tagged md5raw parse_query lower_uni cfg root (bl_add t ip dur now) now ops)
+     = sh_run md5raw parse_query lower_uni cfg root (bl_add t ip dur now) now ops.
+Proof.
+  intros. split; [|apply sh_run_tagged_snd].
+  apply (hls_blacklisted_no_content md5raw parse_query lower_uni cfg root ops _ now ip (now + dur)%Z);
+    [apply lookup_add_same|assumption|]. now apply Zplus_le_compat_l.
+Qed.
+Print Assumptions c14_hls_blacklisted_no_content.
+
+(* whatever serveHls serves lies inside the root, was not black-listed at that moment
+   and, for a playlist, passed simple auth *)
+Theorem c14_hls_served_confined : forall md5raw parse_query lower_uni cfg root t now ip path q t' p,
+  root <> [] -> serve_hls md5raw parse_query lower_uni cfg root t now ip path q = (t', HrFile p) ->
+  inside root p /\ snd (bl_has t ip now) = false /\
+  (beq (snd (filename_and_type (last_item_of_path path))) s_m3u8 = true ->
+   on_hls md5raw parse_query lower_uni cfg (ri_stream (get_request_info path root)) q = SaOk).
+Proof. exact hls_served_confined. Qed.
+Print Assumptions c14_hls_served_confined.
+
+(* the six session callbacks of ServerManager: each consults the flag of its own
+   protocol and direction, and attaches the session iff the request is authorised *)
+Theorem c14_callbacks : forall md5raw parse_query lower_uni cfg stream param,
+  (forall cb, sm_callback cb (sa_decide md5raw parse_query lower_uni cfg (callback_dir cb) (callback_proto cb) stream param) = (0, true)
+     <-> (flag_for cfg (callback_dir cb) (callback_proto cb) = false
+          \/ carries_secret md5raw parse_query lower_uni cfg stream param))
+  /\ flag_for cfg (callback_dir 0) (callback_proto 0) = sa_pub_rtmp cfg
+  /\ flag_for cfg (callback_dir 1) (callback_proto 1) = sa_sub_rtmp cfg
+  /\ flag_for cfg (callback_dir 2) (callback_proto 2) = sa_sub_flv cfg
+  /\ flag_for cfg (callback_dir 3) (callback_proto 3) = sa_sub_ts cfg
+  /\ flag_for cfg (callback_dir 4) (callback_proto 4) = sa_pub_rtsp cfg
+  /\ flag_for cfg (callback_dir 5) (callback_proto 5) = sa_sub_rtsp cfg.
+Proof.
+  intros. split; [|repeat split].
+  intros cb. rewrite <- simple_iff. unfold sm_callback.
+  destruct (sa_decide md5raw parse_query lower_uni cfg (callback_dir cb) (callback_proto cb) stream param);
+    split; intros H; try reflexivity; try discriminate.
+Qed.
+Print Assumptions c14_callbacks.
 
 (* ---- non-vacuity ---------------------------------------------------------- *)
 (* the hypotheses are met by concrete inputs: an admitted and a rejected request with
